@@ -364,12 +364,20 @@ class Program:
                         pass
                 return out
 
+            def bulk():
+                # a long protocol (hundreds to thousands of records, around block sizes an implementation may use)
+                op = {"op": "bulk_comment", "n": rng.choice([255, 257, 999, 1000, 1001, 1023, 1025, 2049, 4097]),
+                      "text": rng.choice(["step ", "µ"]), "width": rng.choice([0, 0, 40, 130])}
+                sess.step(op)
+                return [op]
+
             n_blocks = rng.randint(1, 4)
             for b in range(n_blocks):
                 r = rng.random()
+                big = bulk() if rng.random() < 0.07 else []
                 if r < 0.45:
                     # with-block (auto-save on exit), possibly left by an exception
-                    body = record_ops(rng.choice([0, 1, 2, 3, 5, 8]))
+                    body = big + record_ops(rng.choice([0, 1, 2, 3, 5, 8]))
                     sess.wl.clear()
                     mode = rng.random()
                     if mode < 0.25:
@@ -382,7 +390,7 @@ class Program:
                         body.insert(rng.randint(0, len(body)), {"op": "save", "file": rng.choice(GOOD_NAMES), "path_kind": rng.choice(["str", "Path"])})
                     ops.append({"op": "with", "body": body})
                 else:
-                    ops.extend(record_ops(rng.choice([0, 1, 2, 4, 6])))
+                    ops.extend(big + record_ops(rng.choice([0, 1, 2, 4, 6])))
                     if rng.random() < 0.25:
                         # the worklist is a list: a user may edit records in place between saves
                         e = rng.choice([{"op": "set_record", "index": rng.randrange(50), "record": rng.choice(["C;edited", "W2;", "F;"])},
